@@ -3,8 +3,10 @@ from ..core import Rule
 from ..prog import *
 from ..facts import AnalysisBroken
 from .. import effects
+from ..interp import normx, nkey, run_all
+from .. import evbheap as HB
 
-UNITS = ["event_tagging"]
+UNITS = ["event_tagging", "buffer"]
 LEVEL = "other"
 EXPLANATION = ("K12: in event_tagging.c the pointer returned by evbuffer_pullup (which is NULL on allocation failure or when fewer bytes exist) must be "
                "assigned to a variable and NULL-tested before anything else is done with it: pointer arithmetic on the call result, or passing it on as a data "
@@ -166,4 +168,112 @@ def run(ctx, config):
     if not okh:
         r3.bad("K4:evtag_unmarshal_header:length-not-compared", "%s:%d" % (f.file, f.line), f.name, "the decoded payload length is not compared with evbuffer_get_length")
     rules.append(r3)
+    rules.append(rule_records(P))
     return rules
+
+
+
+def enc_int(number):
+    data = [0] * 9
+    off, nibbles = 1, 0
+    while number:
+        if off & 1:
+            data[off // 2] = (data[off // 2] & 0xf0) | (number & 0x0f)
+        else:
+            data[off // 2] = (data[off // 2] & 0x0f) | ((number & 0x0f) << 4)
+        number >>= 4
+        off += 1
+    if off > 2:
+        nibbles = off - 2
+    data[0] = (data[0] & 0x0f) | ((nibbles & 0x0f) << 4)
+    return bytes(data[:(off + 1) // 2])
+
+
+def enc_tag(tag):
+    out = []
+    while True:
+        lower = tag & 0x7f
+        tag >>= 7
+        if tag:
+            lower |= 0x80
+        out.append(lower)
+        if not tag:
+            break
+    return bytes(out)
+
+
+def rule_records(P):
+    """the record readers evaluated on abstract evbuffer images holding a record cut short at every length and split over two chains at every early position:
+    they accept exactly the complete record (right tag, length, payload left in / copied from the buffer) and never read a byte the buffer does not hold"""
+    r = Rule("C42-records", "K6/K4", "evtag_unmarshal_header / evtag_consume / evtag_peek_length: a record is accepted exactly when it is complete; no byte outside the buffer's data is read", floor=200)
+    nb = 0
+    for tag in (5, 300):
+        for plen in (0, 1, 19, 300):
+            hdr = enc_tag(tag) + enc_int(plen)
+            rec = hdr + bytes((7 * i + 1) & 0xff for i in range(plen))
+            cutset = sorted(set(list(range(0, len(hdr) + 3)) + [len(rec) - 2, len(rec) - 1, len(rec), len(rec) + 4]))
+            for k in [c for c in cutset if 0 <= c]:
+                data = (rec + bytes([0xEE] * 8))[:k]
+                for split in (None, 1, 2, 3):
+                    if split is not None and split >= len(data):
+                        continue
+                    parts = [data] if split is None else [data[:split], data[split:]]
+                    chains = [dict(buffer_len=len(p_) + 16, off=len(p_)) for p_ in parts if p_ or split is None]
+                    if not data:
+                        chains = []
+                    for fname in ("evtag_unmarshal_header", "evtag_consume", "evtag_peek_length"):
+                        f = P.fn(fname)
+                        env = HB.build(chains, max(len(chains) - 1, 0))
+                        pos = 0
+                        for ci, p_ in enumerate([p_ for p_ in parts if p_ or split is None] if data else []):
+                            base = env[HB.cell("c%d" % ci, "evbuffer_chain", "buffer")]
+                            for j, bv in enumerate(p_):
+                                env[("m", base + j)] = bv
+                        env.update({"#typed": 1, "#bytemem": 1, "event_debug_logging_mask_": 0, f.params[0][0]: PPtr("buf"), "#tag": -1})
+                        if len(f.params) > 1:
+                            env[f.params[1][0]] = PRef(None, "#tag")
+
+                        def extra(el, e_):
+                            return None
+                        hook = HB.make_hook(P, extra=lambda el, e_: ("call" if callee_name(el.e) in P.fns and P.fns[callee_name(el.e)].file == "event_tagging.c" else None))
+                        outs = [o for o in run_all(f, (f.entry, 0), env, lambda el: False, P, hook, max_steps=4000) if not (o.kind == "exit" and o.why == "noreturn")]
+                        complete = k >= len(rec)
+                        for o in outs:
+                            if o.kind == "unknown":
+                                why = "%s %s" % (o.why, o.env.get("#err", ""))
+                                if "holds no data" in why:
+                                    r.inst((tag, plen, k, split, fname), {"fn": fname, "tag": tag, "payload": plen, "bytes_present": k, "split": split, "outcome": "over-read"})
+                                    if nb < 6:
+                                        nb += 1
+                                        r.bad("K4:%s:over-read" % fname, "%s:%d" % (f.file, f.line), fname,
+                                              "record tag %d payload %d, %d of %d bytes present%s: %s" % (tag, plen, k, len(rec), "" if split is None else " (split after %d)" % split, why))
+                                    continue
+                                r.brk("%s(tag %d, payload %d, %d bytes, split %s): %s" % (fname, tag, plen, k, split, why))
+                                return r
+                            rv = tevalx(normx(o.at.e[1]), o.env, P, f) if o.kind == "ret" else None
+                            left = HB.content(o.env)
+                            bad = list(HB.invariant(o.env)) + list(o.env.get("#viol", ()))
+                            if fname == "evtag_unmarshal_header":
+                                if complete:
+                                    if rv != plen or o.env.get("#tag") != tag or left != list(data[len(hdr):]):
+                                        bad.append("complete record: returns %r tag %r, %d bytes left (expected %d, tag %d, payload+rest left)" % (rv, o.env.get("#tag"), len(left), plen, tag))
+                                elif rv != -1:
+                                    bad.append("incomplete record (%d of %d bytes) accepted: returns %r" % (k, len(rec), rv))
+                            elif fname == "evtag_consume":
+                                if complete:
+                                    if rv != 0 or left != list(data[len(rec):]):
+                                        bad.append("complete record: returns %r with %d bytes left (expected 0 and %d)" % (rv, len(left), len(data) - len(rec)))
+                                elif rv != -1:
+                                    bad.append("incomplete record (%d of %d bytes) consumed: returns %r" % (k, len(rec), rv))
+                            else:
+                                if k >= len(hdr):
+                                    if rv != 0 or o.env.get("#tag") != len(rec) or left != list(data):
+                                        bad.append("header present: returns %r length %r (expected 0 and %d), buffer must be untouched" % (rv, o.env.get("#tag"), len(rec)))
+                                elif rv != -1:
+                                    bad.append("header incomplete but returns %r" % (rv,))
+                            r.inst((tag, plen, k, split, fname), {"fn": fname, "tag": tag, "payload": plen, "bytes_present": k, "split": split, "returns": rv, "violations": bad})
+                            if bad and nb < 6:
+                                nb += 1
+                                r.bad("K6:%s:record" % fname, "%s:%d" % (f.file, f.line), fname, "record tag %d payload %d, %d of %d bytes present%s: %s" % (
+                                    tag, plen, k, len(rec), "" if split is None else " (split after %d)" % split, "; ".join(bad[:2])))
+    return r
